@@ -326,8 +326,58 @@ def _fix_lit(l):
     return l
 
 
+def gen_display_combo(rng, n):
+    """attribute kinds that `merge_attrs` combines field by field (literal, bounds, rename_all), two or three
+    of them on one item, in a random order, where each is observable: `rename_all` in the name literal of a
+    unit struct / unit variant, bounds in the where clause, the shared literal in every arm"""
+    gen = "<T>" if rng.random() < 0.6 else ""
+    pred = ["T: Copy", "T: Clone", "u8: Copy", "Vec<T>: Clone"] if gen else ["u8: Copy", "String: Clone"]
+
+    def combo(kinds):
+        out = []
+        for k in kinds:
+            if k == "rename":
+                out.append(A(n, "rename", rng.choice(CASINGS)))
+            elif k == "bounds":
+                out.append(A(n, "bounds", rng.choice(["bound", "bounds"]), pick(rng, pred, 1, 2), False))
+            elif k == "bounds2":
+                out.append(A(n, "bounds", rng.choice(["bound", "bounds"]), pick(rng, pred, 1, 1), False))
+            else:
+                out.append(A(n, "fmt", rng.choice(["<{_variant}>", "{_variant}!", "[{_variant}] {}"]),
+                             [] if "{}" not in k else [], False))
+                if out[-1]["t"][1].endswith("{}"):
+                    out[-1] = A(n, "fmt", out[-1]["t"][1], ["1 + 1"], False)
+        rng.shuffle(out)
+        return out
+    c = rng.random()
+    if c < 0.25:
+        it = struct([], None, gen="")
+        pred = ["u8: Copy", "String: Clone"]
+        it["attrs"] = combo(rng.choice([["rename", "bounds"], ["rename", "bounds", "bounds2"]]))
+        return it
+    vs = [variant("VariantOne"), variant("Two"), variant("HTTPError")]
+    rng.shuffle(vs)
+    vs = vs[:rng.randint(1, 3)]
+    if gen:
+        vs.append(variant("Other", [fld("T")], True, attrs=[A(n, "fmt", "{_0}", [], False)]))
+    elif rng.random() < 0.4:
+        vs.append(variant("Num", [fld("i32")], True))
+    it = enum(vs, gen=gen)
+    if c < 0.7:
+        kinds = rng.choice([["rename", "fmt"], ["rename", "bounds"], ["rename", "fmt", "bounds"], ["fmt", "bounds"],
+                            ["rename", "bounds", "bounds2"], ["fmt", "bounds", "bounds2"]])
+        it["attrs"] = combo(kinds)
+    if c >= 0.5:
+        for v in it["variants"]:
+            if not v["fields"] and rng.random() < 0.7:
+                v["attrs"] = combo(rng.choice([["rename", "bounds"], ["rename", "bounds", "bounds2"]]))
+    return it
+
+
 def gen_display(rng, n):
     is_display = n == "display"
+    if is_display and rng.random() < 0.45:
+        return gen_display_combo(rng, n)
     if rng.random() < 0.5:
         shape = rng.choice(["unit", "one", "one", "two", "gen"])
         if shape == "unit":
